@@ -258,3 +258,21 @@ Section ASetProofs.
     - f_equal. apply IH; auto. destruct H; congruence.
   Qed.
 End ASetProofs.
+
+Section AMapMap.
+  Context {K V : Type} (eqd : forall a b : K, {a = b} + {a <> b}).
+
+  Lemma aget_map_vals : forall (f : K -> V -> V) k (m : list (K * V)),
+    aget eqd k (map (fun e => (fst e, f (fst e) (snd e))) m) = option_map (f k) (aget eqd k m).
+  Proof.
+    induction m as [|[k' v'] m IH]; cbn; auto. destruct (eqd k k'); subst; auto.
+  Qed.
+
+  Lemma akeys_map_vals : forall (f : K -> V -> V) (m : list (K * V)),
+    akeys (map (fun e => (fst e, f (fst e) (snd e))) m) = akeys m.
+  Proof. intros. unfold akeys. rewrite map_map. reflexivity. Qed.
+End AMapMap.
+
+Lemma fold_left_inv : forall {A B} (P : A -> Prop) (f : A -> B -> A) l a,
+  (forall a x, P a -> P (f a x)) -> P a -> P (fold_left f l a).
+Proof. induction l; cbn; auto. Qed.
